@@ -756,6 +756,12 @@ class Interp:
         return PList(out)
 
     def e_GeneratorExp(self, node, frame, lazy_ok=False):
+        if not lazy_ok:
+            # a generator expression that is not consumed by the call it is an
+            # argument of (stored in a variable / container, returned) is
+            # evaluated lazily by Python, i.e. against the LATER state: not modelled
+            raise Unsupported("generator expression that is not consumed immediately "
+                              f"({ast.unparse(node)[:70]}): lazy evaluation is outside the modelled subset")
         hook = self._comp_model(node, frame)
         if hook is not None:
             return hook
